@@ -17,6 +17,7 @@ import (
 	"github.com/named-data/ndnd/fw/defn"
 	"github.com/named-data/ndnd/fw/dispatch"
 	"github.com/named-data/ndnd/fw/face"
+	"github.com/named-data/ndnd/fw/fw"
 	enc "github.com/named-data/ndnd/std/encoding"
 	"github.com/named-data/ndnd/std/ndn"
 	spec "github.com/named-data/ndnd/std/ndn/spec_2022"
@@ -63,6 +64,7 @@ func lpSetup() *recThread {
 	core.LoadConfig(cfg, "")
 	core.InitializeLogger("")
 	face.Configure()
+	fw.Threads = make([]*fw.Thread, 1) // one forwarding thread (its number decides the dispatch by name hash); packets go to `rec`
 	rec := &recThread{}
 	dispatch.InitializeFWThreads([]dispatch.FWThread{rec})
 	return rec
@@ -301,4 +303,61 @@ func TestLpRx(t *testing.T) {
 		execs++
 	}
 	writeMeta("lp_rx.meta.json", map[string]any{"executions": execs, "events": total})
+}
+
+// TestLpLocal: local header fields on reception, for every combination of options and fields present.
+func TestLpLocal(t *testing.T) {
+	defer watchDriver("TestLpLocal")()
+	rec := lpSetup()
+	w := newTrace("lp_local.ndjson")
+	defer w.Close()
+	w.Emit(map[string]any{"ev": "Reset"})
+	n := 0
+	pkt := makePkt(200, 7)
+	for mask := 0; mask < 64; mask++ {
+		optNH, optCP := mask&1 != 0, mask&2 != 0
+		hasNH, hasCP, hasMark, hasTok := mask&4 != 0, mask&8 != 0, mask&16 != 0, mask&32 != 0
+		opt := face.MakeNDNLPLinkServiceOptions()
+		opt.IsConsumerControlledForwardingEnabled, opt.IsLocalCachePolicyEnabled = optNH, optCP
+		rx := face.VerifMakeLinkService(face.NewVerifMemTransport(defn.Local, 1500), opt)
+		lp := &spec.LpPacket{Fragment: enc.Wire{pkt.Raw}}
+		if hasNH {
+			lp.NextHopFaceId = utils.IdPtr(uint64(42))
+		}
+		if hasCP {
+			lp.CachePolicy = &spec.CachePolicy{CachePolicyType: 1}
+		}
+		if hasMark {
+			lp.CongestionMark = utils.IdPtr(uint64(1))
+		}
+		if hasTok {
+			lp.PitToken = []byte{0, 0, 1, 2, 3, 4}
+		}
+		p := &spec.Packet{LpPacket: lp}
+		pe := spec.PacketEncoder{}
+		pe.Init(p)
+		frame := pe.Encode(p).Join()
+		rec.got = nil
+		row := map[string]any{"ev": "local", "optNextHop": optNH, "optCachePolicy": optCP, "hasNextHop": hasNH, "hasCachePolicy": hasCP, "hasMark": hasMark, "hasToken": hasTok,
+			"gotNextHop": false, "gotCachePolicy": false, "gotMark": false, "gotToken": false, "delivered": 0}
+		func() {
+			defer func() {
+				if r := recover(); r != nil {
+					row["panic"] = fmt.Sprint(r)
+				}
+			}()
+			face.VerifHandleFrame(rx, frame)
+		}()
+		row["delivered"] = len(rec.got)
+		if len(rec.got) == 1 {
+			g := rec.got[0]
+			row["gotNextHop"] = g.NextHopFaceID != nil && *g.NextHopFaceID == 42
+			row["gotCachePolicy"] = g.CachePolicy != nil && *g.CachePolicy == 1
+			row["gotMark"] = g.CongestionMark != nil
+			row["gotToken"] = bytes.Equal(g.PitToken, []byte{0, 0, 1, 2, 3, 4})
+		}
+		w.Emit(row)
+		n++
+	}
+	writeMeta("lp_local.meta.json", map[string]any{"executions": 1, "events": n})
 }
